@@ -73,6 +73,9 @@ CFG = dict(
           "over nested bases (b, b/sub, b/sub/sub2; absolute, relative, '/', '../up', trailing slash) with url paths that are the "
           "same text once concatenated with the base ('/sub/..' vs '/..', '/sub/../..' vs '/../..', '/sub/x' vs '/x', '//sub/..'), "
           "both orders, alternating, and with 0/300/3000 unrelated calls in between, at the start and again at the end of the run; "
+          "an on-disk phase: real base directories in a sandbox with symbolic links at and beneath the base leading outside (to a "
+          "directory, a file, upwards), dangling and self links, the base itself behind a link, absolute and relative spellings, "
+          "41 url paths through and around them (the property is about the returned path: what is on disk must not matter); "
           "a concurrent phase: 64 goroutines (4 x GOMAXPROCS) x 60,000 calls (thorough 600,000) on clean / dot-dot paths "
           "without leading slash and the usual shapes, every result compared with the same call made sequentially (differences "
           "are VIOL lines and are judged by the Coq predicate), and once more under the race detector; "
